@@ -77,7 +77,7 @@ def ref_both_readings(program, q, **kw):
     return a
 
 
-def impl_answers(code, q, ref_status, ref_answers, ref_steps, setup=None, yp_out=None):
+def impl_answers(code, q, ref_status, ref_answers, ref_steps, setup=None, yp_out=None, between=None):
     """loads code into a fresh budgeted engine and enumerates q.  Returns ('ok', status, answers) or
     ('exc', signature, message)"""
     k = len(ref_answers) + (1 if ref_status == 'done' else 0)
@@ -92,7 +92,7 @@ def impl_answers(code, q, ref_status, ref_answers, ref_steps, setup=None, yp_out
             yp.load_script_from_string(code)
         if setup:
             setup(yp)
-        st, out = impl.run_query(yp, q, max(k, 1))
+        st, out = impl.run_query(yp, q, max(k, 1), between=between)
         return ('ok', st, out)
     except impl.ImplWork:
         return ('work', 'term-copying-work-budget', '')
@@ -313,12 +313,14 @@ class ProgramDiff(Prop):
         v = {'text': case['text'], 'queries': [show(tt(q)) for q in case['queries']]}
         if case.get('split'):
             v['loaded_as_two_scripts_split_after_clause'] = case['split']
+        if case.get('host_noise'):
+            v['host_interns_unused_atoms_between_answers'] = case['host_noise']
         if case.get('dyn'):
             v['asserted_before_the_query'] = [show(tt(t)) for t in case['dyn']]
         return v
 
     def case_key(self, case):
-        return case['text'] + '\x00' + repr(case['queries']) + repr(case.get('dyn') or '') + repr(case.get('split') or '')
+        return case['text'] + '\x00' + repr(case['queries']) + repr(case.get('dyn') or '') + repr(case.get('split') or '') + repr(case.get('host_noise') or '')
 
     def shrink_candidates(self, case):
         return shrink_program_case(case, plain_text)
@@ -398,7 +400,10 @@ class ProgramDiff(Prop):
                                        % (case['text'], show(q), answers_view(ref), answers_view(ref2)))
                 classes.add('crosschecked-second-engine')
             yps = []
-            r = impl_answers(code, q, st, ref, it.steps, yp_out=yps, setup=impl_setup if dyn else None)
+            r = impl_answers(code, q, st, ref, it.steps, yp_out=yps, setup=impl_setup if dyn else None,
+                             between=impl.host_noise(case['host_noise']) if case.get('host_noise') else None)
+            if case.get('host_noise'):
+                classes.add('host-interns-%d-atoms-between-answers' % case['host_noise'])
             if r[0] == 'work':
                 classes.add('query-too-expensive(term-copying work budget)')
                 continue
